@@ -23,14 +23,15 @@ int main(int argc, char** argv) {
 	for (int s = first; s < first + n; ++s) {
 		unsigned style; make_stream(seed, s, style);
 		uint8_t dummy[4] = { 0 }; randomx::Blake2Generator gen(dummy, 0);
-		int nprogs = 1 + (s % 2);
+		int nprogs = atoi(arg(argc, argv, "--progs", "0")); if (nprogs <= 0) nprogs = 1 + (s % 2);
 		randomx::SuperscalarProgram* p = new randomx::SuperscalarProgram();
-		int dstAfterSrc = 0, aborts = 0, srcThrow = 0, maxConsec = 0, unmapped = 0, full = 0, small = 0, elim = 0, maxStall = 0;
+		int dstAfterSrc = 0, aborts = 0, srcThrow = 0, maxConsec = 0, unmapped = 0, full = 0, small = 0, elim = 0, maxStall = 0, rcp = 0;
 		for (int i = 0; i < nprogs; ++i) {
 			std::ostringstream os; std::streambuf* old = std::cout.rdbuf(os.rdbuf());
 			randomx::generateSuperscalar(*p, gen);
 			std::cout.rdbuf(old);
 			if (p->getSize() >= 512) full++;
+			for (unsigned j = 0; j < p->getSize(); ++j) if ((randomx::SuperscalarInstructionType)(*p)(j).opcode == randomx::SuperscalarInstructionType::IMUL_RCP) rcp++;
 			if (p->getSize() < 380) small++;
 			std::istringstream is(os.str()); std::string ln; int srcStall = 0, dstStall = 0, consec = 0;
 			while (std::getline(is, ln)) {
@@ -44,7 +45,7 @@ int main(int argc, char** argv) {
 			}
 		}
 		delete p;
-		printf("S %llu:%d style=%u dstAfterSrcStall=%d aborts=%d srcThrow=%d maxConsec=%d unmapped=%d full=%d small=%d maxStall=%d\n", (unsigned long long)seed, s, style, dstAfterSrc, aborts, srcThrow, maxConsec, unmapped, full, small, maxStall);
+		printf("S %llu:%d style=%u dstAfterSrcStall=%d aborts=%d srcThrow=%d maxConsec=%d unmapped=%d full=%d small=%d maxStall=%d rcp=%d\n", (unsigned long long)seed, s, style, dstAfterSrc, aborts, srcThrow, maxConsec, unmapped, full, small, maxStall, rcp);
 	}
 	return 0;
 }
